@@ -74,5 +74,7 @@ TransOK(r) == \A d \in 1..3 : Abs(r.dshift[d] - r.charge * Shift[d] * DipUnit) <
 \* the dipole is the one implied by the published charges, coordinates and density: point charges q_a R_a plus the
 \* one-centre s-p hybridisation term -2 dd_a P(s, p_d) (products formed by the driver, summed here)
 DipoleFormula(r) == r.dipf => \A d \in 1..3 : Abs(Sum(r.dq[d], Len(r.dq[d])) + r.dh[d] - r.dip[d]) <= 3 + Len(r.dq[d])
+\* when the forces of all states are requested, the entry of the active state is the published force
+AllForcesOK(r) == r.allf <= 5
 ElectronCount(r) == Abs(Sum(r.dp, Len(r.dp)) - r.nel * 1000000) <= 4 * Len(r.q)
 =============================================================================
